@@ -111,6 +111,8 @@ theorem grows_evalInt (ops : CacheOps κ) (p : Profile) (g : Graph) (fuel : Nat)
       | port => exact grows_fail _
       | command _ _ => exact grows_fail _
       | integer pv _ => exact ih pv
+      | enumeration pv _ => exact ih pv
+      | boolean _ _ _ => exact grows_fail _
       | reg r =>
         dsimp only
         cases r.kind with
@@ -144,21 +146,13 @@ theorem regAddr_inv (f : Nat) (r : Reg) {s s' : St Store} {a : Int}
   rw [h] at hs
   exact ⟨hs.2.1.2, hs.2.2 a rfl⟩
 
-theorem cachedRead_nocache {s : St Store} (hK : KeysOk p g s.cache) {n : NodeId} {r : Reg}
+theorem cachedRead_nocache {s : St Store} (hA : NoCacheAbsent g s.cache) {n : NodeId} {r : Reg}
     (hn : g[n]? = some (.reg r)) (hm : r.mode = .noCache) (a : Int) :
     cachedRead defaultCache g n r a s = readAndCache defaultCache g n r a r.len s := by
-  have hget : s.cache.get n a r.len = none := by
-    cases h : s.cache.get n a r.len with
-    | none => rfl
-    | some bs =>
-      obtain ⟨r', hr', hm', _⟩ := hK _ _ _ _ h
-      rw [hn] at hr'
-      cases hr'
-      exact absurd hm hm'
   show (match Store.get s.cache n a r.len with
     | some bs => (Res.ok bs, s)
     | none => readAndCache defaultCache g n r a r.len s) = _
-  rw [hget]
+  rw [hA n r hn hm a r.len]
 
 theorem readAndCache_ok_log {κ : Type} {ops : CacheOps κ} {n : NodeId} {r : Reg} {a : Int}
     {buflen : Nat} {s s' : St κ} {bs : Bytes}
@@ -175,98 +169,12 @@ theorem readAndCache_ok_log {κ : Type} {ops : CacheOps κ} {n : NodeId} {r : Re
     · cases h
   · cases h
 
-/-- `with_cache_or_read` on a NoCache register: a successful result was just read from the
-device (newest log entry), after whatever the address evaluation logged. -/
-theorem wcor_nocache (f : Nat) {s s' : St Store} (hI : Inv p g s.cache s.dev) {n : NodeId}
-    {r : Reg} (hn : g[n]? = some (.reg r)) (hm : r.mode = .noCache) {bs : Bytes}
-    (h : withCacheOrRead defaultCache p g (evalInt defaultCache p g f) n r s = (.ok bs, s')) :
-    ∃ a pre, s'.dev.log = ⟨false, a, r.len, bs, true⟩ :: (pre ++ s.dev.log) := by
-  unfold withCacheOrRead at h
-  obtain ⟨a, ha, h2⟩ := bind_ok_inv h
-  have hpair : regAddr p (evalInt defaultCache p g f) r s =
-      (.ok a, (regAddr p (evalInt defaultCache p g f) r s).2) := by
-    rw [← ha]
-  obtain ⟨hI1, _⟩ := regAddr_inv f r hI hpair
-  obtain ⟨pre, hpre⟩ := grows_regAddr p (grows_evalInt defaultCache p g f) r s
-  rw [cachedRead_nocache hI1.keys hn hm] at h2
-  obtain ⟨hlog, _⟩ := readAndCache_ok_log h2
-  exact ⟨a, pre, by rw [hlog, hpre]⟩
-
-
 theorem bind_of_ok {κ α β : Type} {m : M κ α} {f : α → M κ β} {s : St κ} {a : α}
     (h : (m s).1 = .ok a) : (m >>= f) s = f a (m s).2 := by
   rw [bind_apply, h]
 
 theorem pair_eta {κ α : Type} {m : M κ α} {s : St κ} {a : α} (h : (m s).1 = .ok a) :
     m s = (.ok a, (m s).2) := by rw [← h]
-
-/-- integer-valued read of a NoCache IntReg / MaskedIntReg -/
-theorem evalInt_nocache (f : Nat) {s s' : St Store} (hI : Inv p g s.cache s.dev) {n : NodeId}
-    {r : Reg} (hn : g[n]? = some (.reg r)) (hm : r.mode = .noCache) {v : Int}
-    (h : evalInt defaultCache p g (f + 1) n s = (.ok v, s')) :
-    ∃ a bs pre, s'.dev.log = ⟨false, a, r.len, bs, true⟩ :: (pre ++ s.dev.log) := by
-  simp only [evalInt, hn] at h
-  cases hk : r.kind with
-  | int e sg =>
-    rw [hk] at h
-    dsimp only at h
-    obtain ⟨bs, hbs, h2⟩ := bind_ok_inv h
-    obtain ⟨_, rfl⟩ := lift_ok_inv h2
-    obtain ⟨a, pre, hlog⟩ := wcor_nocache f hI hn hm (pair_eta hbs)
-    exact ⟨a, bs, pre, hlog⟩
-  | masked e sg lsb msb =>
-    rw [hk] at h
-    dsimp only at h
-    obtain ⟨bs, hbs, h2⟩ := bind_ok_inv h
-    obtain ⟨x, hx, h3⟩ := bind_ok_inv h2
-    obtain ⟨_, hs1⟩ := lift_ok_inv (pair_eta hx)
-    obtain ⟨lw, hlw, h4⟩ := bind_ok_inv h3
-    obtain ⟨_, hs2⟩ := lift_ok_inv (pair_eta hlw)
-    obtain ⟨l, w⟩ := lw
-    obtain ⟨_, hs3⟩ := pure_ok_inv h4
-    obtain ⟨a, pre, hlog⟩ := wcor_nocache f hI hn hm (pair_eta hbs)
-    refine ⟨a, bs, pre, ?_⟩
-    rw [hs3, hs2, hs1]
-    exact hlog
-  | float _ => rw [hk] at h; cases h
-  | string => rw [hk] at h; cases h
-  | raw => rw [hk] at h; cases h
-
-/-- **NoCache, operation level**: a successful `value` of a NoCache register ends with a
-successful device read of the register's length that this operation performed. -/
-theorem opValue_nocache {s s' : St Store} (hI : Inv p g s.cache s.dev) {n : NodeId}
-    {r : Reg} (hn : g[n]? = some (.reg r)) (hm : r.mode = .noCache) {v : Val}
-    (h : run defaultCache p g s (.value n) = (.ok v, s')) :
-    ∃ a bs pre, s'.dev.log = ⟨false, a, r.len, bs, true⟩ :: (pre ++ s.dev.log) := by
-  simp only [run, evalOp, opValue, hn, fuelOf] at h
-  cases hk : r.kind with
-  | int e sg =>
-    rw [hk] at h
-    dsimp only at h
-    obtain ⟨x, hx, h2⟩ := bind_ok_inv h
-    obtain ⟨_, rfl⟩ := pure_ok_inv h2
-    exact evalInt_nocache g.length hI hn hm (pair_eta hx)
-  | masked e sg lsb msb =>
-    rw [hk] at h
-    dsimp only at h
-    obtain ⟨x, hx, h2⟩ := bind_ok_inv h
-    obtain ⟨_, rfl⟩ := pure_ok_inv h2
-    exact evalInt_nocache g.length hI hn hm (pair_eta hx)
-  | float e =>
-    rw [hk] at h
-    dsimp only at h
-    obtain ⟨bs, hbs, h2⟩ := bind_ok_inv h
-    obtain ⟨_, rfl⟩ := lift_ok_inv h2
-    obtain ⟨a, pre, hlog⟩ := wcor_nocache (g.length + 1) hI hn hm (pair_eta hbs)
-    exact ⟨a, bs, pre, hlog⟩
-  | string =>
-    rw [hk] at h
-    dsimp only at h
-    obtain ⟨bs, hbs, h2⟩ := bind_ok_inv h
-    obtain ⟨_, rfl⟩ := pure_ok_inv h2
-    obtain ⟨a, pre, hlog⟩ := wcor_nocache (g.length + 1) hI hn hm (pair_eta hbs)
-    exact ⟨a, bs, pre, hlog⟩
-  | raw => rw [hk] at h; cases h
 
 /-- raw `IRegister::read` is never served from the cache, whatever the mode -/
 theorem opRead_reads {s s' : St Store} {n : NodeId} {r : Reg} (hn : g[n]? = some (.reg r))
